@@ -69,7 +69,7 @@ def rule_R2(chk, repo):
     chk.rule(rid, 'callable dispatch: every read of `.active` / `.opics` of an automaton edge inside from_automaton '
                   'has the form `E.f(i) if isinstance(E.f, Callable) else E.f` with `i` the variable of a loop over '
                   'range(length) (possibly reversed) - site-dependent edges are evaluated at the site being unrolled.')
-    fi = repo.func('opgraph.OpGraph.from_automaton')
+    fi = _spelled(repo.func('opgraph.OpGraph.from_automaton'))
     # loop variables ranging over range(length)
     site_vars = set()
     for n in ast.walk(fi.node):
@@ -168,7 +168,8 @@ def rule_R3(chk, repo):
                 # dominating guard: count > 0
                 guard = dominating_tests(fi.node, c)
                 cnt = norm(c.args[2].left if not isinstance(c.args[2].left, ast.List) else c.args[2].right)
-                ok = any(g == f'{cnt} > 0' for g in guard)
+                # (the count is an integer: `> 0`, `>= 1` and their mirrored spellings say the same)
+                ok = any(g in (f'{cnt} > 0', f'{cnt} >= 1', f'0 < {cnt}', f'1 <= {cnt}') for g in guard)
                 chk.ob(rid, where(repo, fi, c), f'{fi.name}: padding only when the count `{cnt}` is positive', ok,
                        f'dominating conditions: {guard}', key=f'{rid}|{q}|pad-guard|{cnt}')
                 n += 5
@@ -377,6 +378,28 @@ def frontier_rule(fi, d):
                 (f', early exit from the site loop at line {exits[0].lineno}' if exits else ''))
 
 
+class _Spell(ast.NodeTransformer):
+    """one spelling for constructs the rules compare as text: callable(x) is isinstance(x, Callable);
+    a.intersection(b) is a & b (for the sets of reachable nodes)"""
+
+    def visit_Call(self, node):
+        self.generic_visit(node)
+        if isinstance(node.func, ast.Name) and node.func.id == 'callable' and len(node.args) == 1 and not node.keywords:
+            return ast.fix_missing_locations(ast.copy_location(
+                ast.Call(func=ast.Name(id='isinstance', ctx=ast.Load()), args=[node.args[0], ast.Name(id='Callable', ctx=ast.Load())],
+                         keywords=[]), node))
+        if isinstance(node.func, ast.Attribute) and node.func.attr == 'intersection' and len(node.args) == 1 and not node.keywords:
+            return ast.fix_missing_locations(ast.copy_location(
+                ast.BinOp(left=node.func.value, op=ast.BitAnd(), right=node.args[0]), node))
+        return node
+
+
+def _spelled(fi):
+    import copy
+    from ..canon import CanonFunc
+    return CanonFunc(fi, _Spell().visit(copy.deepcopy(fi.node)), dict(getattr(fi, 'renamed', {}) or {}))
+
+
 def rule_R4(chk, repo):
     rid = 'C17.R4'
     chk.rule(rid, 'automaton unrolling (roles, not names; local definitions expanded): the edge added at site i runs '
@@ -385,7 +408,7 @@ def rule_R4(chk, repo):
                   'incoming edges eids[0] of the automaton node; ACT is the element-wise intersection of forward and '
                   'backward reachability; reachability in direction d starts at terminal 1-d and follows eids[d] -> nids[d].')
     from ..canon import canonical, DIRECTION_LOOP
-    fi = canonical(repo.func('opgraph.OpGraph.from_automaton'), (), DIRECTION_LOOP)
+    fi = _spelled(canonical(repo.func('opgraph.OpGraph.from_automaton'), (), DIRECTION_LOOP))
     from .common import position_table_view
     from ..canon import CanonFunc
     node_v, tables_ = position_table_view(fi.node)
@@ -455,6 +478,17 @@ def rule_R4(chk, repo):
         m = pmatch('[__AUT.nodes[__x] for __x in __ACT2[__J]]', n_loop[0].iter)
         if m is not None:
             tgt_ok = m['__ACT2'] == ACT and m['__J'] == f'{site} + 1'
+    elif na is not None:
+        # `for x in ACT[i + 1]: NA = AUT.nodes[x]` - the loop over the ids with the node looked up in its body
+        for l in loops:
+            if isinstance(l, ast.For) and isinstance(l.target, ast.Name) and l.body and isinstance(l.body[0], ast.Assign) and \
+                    norm(l.body[0].targets[0]) == na and \
+                    sum(1 for x in ast.walk(l) if isinstance(x, ast.Name) and x.id == na and isinstance(x.ctx, ast.Store)) == 1:
+                m = pmatch(f'__AUT.nodes[{l.target.id}]', l.body[0].value)
+                m2 = pmatch('__ACT2[__J]', l.iter)
+                if m is not None and m2 is not None:
+                    n_loop = [l]
+                    tgt_ok = m2['__ACT2'] == ACT and m2['__J'] == f'{site} + 1'
     chk.ob(rid, where(repo, fi, ec), 'new nodes enumerate the active automaton nodes of layer i+1', tgt_ok,
            norm(n_loop[0].iter)[:80] if n_loop else 'loop over automaton nodes not found', key=f'{rid}|target-layer')
     # the new graph node is created in that loop and appended to the layer map in enumeration order
@@ -475,7 +509,9 @@ def rule_R4(chk, repo):
         for s in ast.walk(fi.node):
             if isinstance(s, ast.Assign) and norm(s.targets[0]) == ACT:
                 m = pmatch('[sorted(list(__a & __b)) for __a, __b in zip(__F[0], __F[1])]', s.value) or \
-                    pmatch('[sorted(__a & __b) for __a, __b in zip(__F[0], __F[1])]', s.value)
+                    pmatch('[sorted(__a & __b) for __a, __b in zip(__F[0], __F[1])]', s.value) or \
+                    pmatch('[sorted(list(__a & __b)) for __a, __b in zip(*__F)]', s.value) or \
+                    pmatch('[sorted(__a & __b) for __a, __b in zip(*__F)]', s.value)
                 inter_ok = m is not None
     chk.ob(rid, where(repo, fi, fi.node), 'active nodes per layer = forward-reachable AND backward-reachable', inter_ok,
            '', key=f'{rid}|intersection')
